@@ -6,6 +6,7 @@ import Mamba.Lemmas.IterPartial
 import Mamba.Lemmas.IterMSComb
 import Mamba.Lemmas.IterMSCombInv
 import Mamba.Lemmas.IterMSCombFull
+import Mamba.Lemmas.IterMSCombFix
 import Mamba.Lemmas.IterHeap
 import Mamba.Lemmas.IterPart
 import Mamba.Lemmas.IterLex
@@ -293,25 +294,29 @@ theorem Heap.family (n : Nat) (x : List Int) :
     (heapList n).length = n.factorial :=
   ⟨mem_heapList n x, heapList_nodup n, heapList_length n⟩
 
-/-! ## MultisetCombinations (Algorithm Q), with the known finding F1
+/-! ## MultisetCombinations (Algorithm Q)
 
-The Go code is wrong on the shapes described by the decidable predicate `msKnownBad m`: `m[0] = 0`, or
-`m[0] = 1 ∧ m[1] = 0`, followed by a positive multiplicity (finding F1; negative examples below). Every theorem therefore
-carries the hypothesis `msKnownBad m = false`; zero multiplicities elsewhere are in the domain. -/
+The code runs Algorithm Q on the types with a positive multiplicity and scatters the counts back to their positions in
+`m` (repair of finding F1: before, a type with multiplicity 0 in front of a positive one made the iterator miss
+members or panic). The theorems hold for ALL `m ≥ 0` (zeros anywhere) and all `k ≥ 0`. -/
 
-/-- `MultisetCombinations(m, k)`, all `m ≥ 0` outside the known-bad shapes, all `k ≥ 0`: the values are the pairs
-(count vector `c`, its expansion `expandList 0 c` = the sorted multiset returned by `Value()`) for `c` running through
+/-- `MultisetCombinations(m, k)`, all `m ≥ 0`, all `k ≥ 0`: the values are the pairs (count vector `c` indexed like
+`m`, its expansion `expandList 0 c` = the sorted multiset returned by `Value()`) for `c` running through
 `msColexList m k`, then `Next` is false forever; no panic, the loops' fuel suffices. -/
-theorem MSComb.enumerates (m : List Int) (k : Int) (hm : ∀ v ∈ m, 0 ≤ v) (hk : 0 ≤ k) (hb : msKnownBad m = false) :
+theorem MSComb.enumerates (m : List Int) (k : Int) (hm : ∀ v ∈ m, 0 ≤ v) (hk : 0 ≤ k) :
     ∀ bound, (msColexList m k).length < bound →
       ∃ s', outputs MSComb.it bound (MSComb.init m k) =
           ((msColexList m k).map (fun c => (c, expandList 0 c)), s', .exhausted) ∧
         ∀ n, extras MSComb.it n s' = .ok (List.replicate n none) :=
-  MSComb.enumerates_lemma m k hm hk hb
+  MSComb.enumerates_lemma m k hm hk
 
-/-- non-vacuity: an interior zero multiplicity is allowed -/
-example : (∀ v ∈ ([2, 0, 2] : List Int), 0 ≤ v) ∧ msKnownBad [2, 0, 2] = false ∧
-    (outputs MSComb.it 10 (MSComb.init [2, 0, 2] 3)).1.length = 2 := by decide
+/-- non-vacuity, on the two inputs of the former finding F1: every member is now produced -/
+example : (∀ v ∈ ([0, 1, 2] : List Int), 0 ≤ v) ∧
+    (outputs MSComb.it 10 (MSComb.init [0, 1, 2] 2)).1 = [([0, 1, 1], [1, 2]), ([0, 0, 2], [2, 2])] ∧
+    (outputs MSComb.it 10 (MSComb.init [0, 1, 2] 2)).2.2 = .exhausted := by decide
+
+example : (outputs MSComb.it 10 (MSComb.init [1, 0, 3] 2)).1 = [([1, 0, 1], [0, 2]), ([0, 0, 2], [2, 2])] ∧
+    (outputs MSComb.it 10 (MSComb.init [1, 0, 3] 2)).2.2 = .exhausted := by decide
 
 /-- the family: `msColexList m k` contains exactly the count vectors `c` with `0 ≤ c[i] ≤ m[i]` and `∑ c = k`
 (`G c i` = entry `i`), each exactly once (no order is documented; the algorithm's order is colexicographic); it is a
@@ -324,26 +329,16 @@ theorem MSComb.family (m : List Int) (k : Int) (hm : ∀ v ∈ m, 0 ≤ v) (c : 
 
 example : ∀ v ∈ ([2, 0, 2] : List Int), 0 ≤ v := by decide
 
-/-- exhaustion is absorbing for ALL `m`, `k` and all states (also on the known-bad shapes) -/
+/-- exhaustion is absorbing for all `m`, `k` and all states -/
 theorem MSComb.exhaustion_absorbing (s s' : MSComb) (h : MSComb.next s = .ok (s', false)) :
     ∀ k, extras MSComb.it k s' = .ok (List.replicate k none) :=
   MSComb.absorbing s s' h
 
-example : ∃ s', MSComb.next ⟨none, [2], 3, 0, [], false⟩ = .ok (s', false) := ⟨_, rfl⟩
+example : ∃ s', MSComb.next ⟨none, [2], 3, 0, [], false, [2], none⟩ = .ok (s', false) := ⟨_, rfl⟩
 
-/-- Finding F1, first shape, on the model (which reproduces the Go code): `MultisetCombinations([0 1 2], 2)` yields
-only `[0 1 1]` and stops, although `[0 0 2]` is a member of the family. -/
-example : (outputs MSComb.it 10 (MSComb.init [0, 1, 2] 2)).1 = [([0, 1, 1], [1, 2])] ∧
-    (outputs MSComb.it 10 (MSComb.init [0, 1, 2] 2)).2.2 = .exhausted ∧
-    [0, 0, 2] ∈ msFamily [0, 1, 2] 2 ∧ msKnownBad [0, 1, 2] = true := by decide
-
-/-- Finding F1, second shape: `MultisetCombinations([1 0 3], 2)` panics in `Value()` after two values. -/
-example : (outputs MSComb.it 10 (MSComb.init [1, 0, 3] 2)).1 = [([1, 0, 1], [0, 2]), ([0, 0, 2], [2, 2])] ∧
-    (outputs MSComb.it 10 (MSComb.init [1, 0, 3] 2)).2.2 = .panic ∧ msKnownBad [1, 0, 3] = true := by decide
-
--- test (bounded, kernel-evaluated): for all `m ∈ {0,1,2}^{≤3}` outside the known-bad shape and all `k < 8` the model
--- stops by exhaustion and yields every member of `msFamily m k` exactly once, with consistent `Value()`.
-example : ((List.range 4).flatMap (vectors 2)).all (fun m => msKnownBad m ||
+-- test (bounded, kernel-evaluated): for all `m ∈ {0,1,2}^{≤3}` and all `k < 8` the model stops by exhaustion and
+-- yields every member of `msFamily m k` exactly once, with consistent `Value()`.
+example : ((List.range 4).flatMap (vectors 2)).all (fun m =>
     (List.range 8).all (fun (k : Nat) => msCheck m k)) = true := by decide
 
 /-! ## TopologicalSorts (Algorithm V) = filter -/
